@@ -20,6 +20,9 @@ func (p *Program) extraCoverage(prop string) map[string]interface{} {
 	if p.audits != nil {
 		out["assumption_audits"] = p.audits
 	}
+	if p.engineTest != nil {
+		out["engine_semantics_selftest"] = p.engineTest
+	}
 	if p.benign != nil {
 		out["selftest_benign_corpus"] = p.benign
 	}
